@@ -3,6 +3,7 @@ import json
 import subprocess
 
 from pyvc.report import Check
+from bounded import clinative
 from pyvc import units, source
 from contracts import buildsel
 
@@ -146,6 +147,7 @@ def run(tier, seed):
                    'evaluations': nat.get('n', 0), 'failures': len(nat.get('bad', []))}
     if nat.get('bad') and not chk.violations:
         chk.violation('BOUNDED:c13/native build differs from the prescription', {'witness': nat['bad'][:4]}, True)
+    clinative.fold(chk, 'build')
     chk.trust('pyvc symbolic executor (real do_build, loop over the six sections unrolled exactly, state merging) + z3')
     chk.assume('carts are abstract: file.from_file(f) is a Game whose section X is SEC(f, X) and whose label is LABEL(f); make_empty_game '
                'gives EMPTY(X); file names are abstract values with uninterpreted exists / endswith predicates (suffix exclusivity axiom)')
